@@ -208,7 +208,7 @@ def check(model, rep):
     dyn = [fi for name, fi in sorted(arm.methods.items()) if 'ynamics' in name or name in ('massMatrix', 'coriolisGravity')]
     n = frames.check_methods(rep, 'R08.6', dyn)
     rep.count('R08.6 relative transforms with both frames known', n)
-    rep.floor('R08.6', 'typed relative transforms in the dynamics methods', n, 2)
+    rep.floor('R08.6', 'typed relative transforms in the dynamics methods', n, 1)
 
 
 def _strip(e):
